@@ -654,6 +654,56 @@ func runServerOne(t *Trace, c4, c6 []plugConf, seed int64, ndg int) error {
 	peer4 := &net.UDPAddr{IP: net.IPv4(10, 0, 0, 9), Port: 68}
 	dead := false
 	conv := newConvState()
+	// systematic, not sampled: every option a plugin reads, with every body length 0..5 (DHCPv6: 0..6), on the message
+	// types that are answered - the codec does not validate per-option lengths, every reader of an option meets these
+	if c4 != nil {
+		for _, code := range []uint8{1, 3, 6, 12, 50, 51, 53, 54, 55, 57, 61, 82, 108, 116} {
+			for n := 0; n <= 5 && !dead; n++ {
+				for _, mt := range []dhcpv4.MessageType{dhcpv4.MessageTypeDiscover, dhcpv4.MessageTypeRequest} {
+					d, _ := dhcpv4.NewDiscovery(srvMacs[2+(n+int(code))%5])
+					d.UpdateOption(dhcpv4.OptMessageType(mt))
+					v := make([]byte, n)
+					r.Read(v)
+					if code == 53 {
+						if n == 0 {
+							continue
+						}
+						v[0] = byte(mt)
+					}
+					d.Options[code] = v
+					fr := feed(l4, l6, 4, d.ToBytes(), 7, peer4)
+					t.Emit(Ev{"ev": "dg", "proto": 4, "kind": fmt.Sprintf("sweep-opt%d-len%d", code, n), "mut": "opt-short", "len": len(d.ToBytes()), "res": fr.res, "n": fr.n, "msg": fr.msg})
+					if fr.res == "wedged" || fr.res == "slow" {
+						dead = true
+					}
+				}
+			}
+		}
+	}
+	if c6 != nil {
+		for _, code := range []uint16{1, 2, 3, 6, 8, 14, 16, 25, 26, 39, 79} {
+			for n := 0; n <= 6 && !dead; n++ {
+				for _, mt := range []dhcpv6.MessageType{dhcpv6.MessageTypeSolicit, dhcpv6.MessageTypeRequest, dhcpv6.MessageTypeRenew} {
+					m, _ := dhcpv6.NewSolicit(srvMacs[2+(n+int(code))%5])
+					m.MessageType = mt
+					if mt != dhcpv6.MessageTypeSolicit {
+						m.AddOption(dhcpv6.OptServerID(own))
+					}
+					m.AddOption(&dhcpv6.OptIAPD{IaId: [4]byte{3, 0, 0, 1}})
+					b := m.ToBytes()
+					v := make([]byte, n)
+					r.Read(v)
+					b = append(b, byte(code>>8), byte(code), 0, byte(n))
+					b = append(b, v...)
+					fr := feed(l4, l6, 6, b, 7, &net.UDPAddr{IP: net.ParseIP("fe80::99"), Port: 546})
+					t.Emit(Ev{"ev": "dg", "proto": 6, "kind": fmt.Sprintf("sweep-opt%d-len%d", code, n), "mut": "opt-short", "len": len(b), "res": fr.res, "n": fr.n, "msg": fr.msg})
+					if fr.res == "wedged" || fr.res == "slow" {
+						dead = true
+					}
+				}
+			}
+		}
+	}
 	for i := 0; i < ndg && !dead; i++ {
 		proto := 4
 		if c4 == nil || (c6 != nil && r.Intn(2) == 0) {
